@@ -70,7 +70,7 @@ Qed.
 
 Lemma wstep_quiescent w pid a : quiescent w -> wstep pid a w = w.
 Proof.
-  intro Hq. unfold M_Parallel.wstep.
+  intro Hq. rewrite wstep_eq.
   destruct ((1 <=? pid) && (pid <=? np)) eqn:Hg; [|reflexivity].
   apply andb_prop in Hg as [Hg1 Hg2]. apply Nat.leb_le in Hg1, Hg2.
   destruct (exitc (wks w pid)) eqn:He; [reflexivity|].
@@ -256,7 +256,7 @@ Qed.
 Lemma NF_worker w m pid a :
   is_die (Worker pid a) = false -> NF w m -> NF (wstep pid a w) m.
 Proof.
-  intros Hnd HN. unfold M_Parallel.wstep.
+  intros Hnd HN. rewrite wstep_eq.
   destruct ((1 <=? pid) && (pid <=? np)) eqn:Hg; [|exact HN].
   apply andb_prop in Hg as [Hg1 Hg2]. apply Nat.leb_le in Hg1, Hg2.
   destruct (exitc (wks w pid)) eqn:He; [exact HN|].
